@@ -199,8 +199,7 @@ def shortcut(ctx, facts, cfg):
     db = RL.get(ctx, 'dec.begin', R, cfg)
     if db is None:
         return
-    tails = []
-    c12.collect_tails(db.hir['value'], (), {}, tails)
+    tails = core.fn_exits(db)
     found = False
     for (x, conds, env) in tails:
         v = hcanon(x, env)
